@@ -196,6 +196,43 @@ pub fn gen_short(src: &mut Src, _i: usize) -> Case {
     c
 }
 
+/// long inputs: thousands to tens of thousands of characters in one call vs chunked
+pub fn gen_long(src: &mut Src, _i: usize) -> Case {
+    let (cols, rows) = if src.chance(1, 3) { (*src.pick(&[80usize, 132, 300]), *src.pick(&[24usize, 50])) } else { gen::small_size(src) };
+    let mut g = G::new(cols, rows);
+    g.w[gen::CAT_C0] = 12;
+    g.w[gen::CAT_TEXT] = 14;
+    g.w[gen::CAT_ALT] = 2;
+    g.w[gen::CAT_INERT] = 4;
+    let target = *src.pick(&[1500usize, 4096, 5000, 9000, 20000]);
+    let mut s = String::new();
+    let mut n = 0;
+    while n < target {
+        let f = if src.chance(1, 30) {
+            // one very long string payload / text run
+            let len = src.range(200, 3000);
+            let body: String = (0..len).map(|k| (b'a' + (k % 26) as u8) as char).collect();
+            if src.chance(1, 2) { format!("\x1b]0;{}\x07", body) } else { body }
+        } else {
+            gen::frag(src, &g)
+        };
+        n += f.chars().count();
+        s.push_str(&f);
+    }
+    let mut case = Case::new(cols, rows, if src.chance(1, 2) { None } else { gen::limit(src) });
+    // chunk sizes around typical read-buffer sizes
+    let chars: Vec<char> = s.chars().collect();
+    let sz = *src.pick(&[1usize, 7, 255, 256, 1024, 4096]);
+    let mut i = 0;
+    while i < chars.len() {
+        let e = (i + sz + src.below(3)).min(chars.len());
+        case.calls.push(Call::FeedStr(chars[i..e].iter().collect()));
+        i = e;
+    }
+    case.nums = vec![0];
+    case
+}
+
 /// every implemented sequence family once, cut at every position, on both screens
 fn enum_sequences() -> Vec<Case> {
     let seqs = [
@@ -225,6 +262,7 @@ pub fn run(env: &Env) -> PropRun {
     let es = enum_sequences();
     parts.push(run_part(env, "enum-sequences", es.len(), true, "47 sequence families x 4 prefixes x 2 suffixes x 2 sizes x {unlimited, limit 0}: each input fed whole, per character (feed_str and feed()), and cut at every single position", &|i| es.get(i).cloned(), &j));
     parts.push(random_part(env, "short-all-cuts", env.tier.scale(40_000, 30), &gen_short, &j));
+    parts.push(random_part(env, "long-inputs", env.tier.scale(200, 30), &gen_long, &j));
     parts.push(random_part(env, "structured", env.tier.scale(25_000, 30), &gen_structured, &j));
     parts.push(random_part(env, "raw", env.tier.scale(15_000, 30), &gen_raw, &j));
     PropRun {
